@@ -31,7 +31,7 @@ namespace Compass
 set_option linter.unusedSectionVars false
 
 section
-variable {α : Type} [Field α] [LinearOrder α] [IsStrictOrderedRing α] [Lit α] [LawfulLit α] [BEq α]
+variable {α : Type} [Field α] [LinearOrder α] [IsStrictOrderedRing α] [Lit α] [LawfulLit α]
 
 open SearchOpt (Walk cost UniformCostOn UniformOn VertexHOn NoSpuriousNoPath Admissible)
 
@@ -520,6 +520,268 @@ theorem Config.noSpuriousNoPath (c : Config α) : NoSpuriousNoPath c.inst where
   h := fun v st => estimate_ne_noPath c v st
   term := fun n i => TermM.test_ne_noPath c.term n i
 
+/-! ### C02 / C05 for concrete configurations (`Config.runVertex`) -/
+
+/-- with weight factor 0 every (non-negative-cost) walk bounds the estimate: Dijkstra needs no
+admissibility premise -/
+theorem Config.admissible_dijkstra (c : Config α) (hwf : c.wf = some 0) (t : Nat) :
+    Admissible c.inst c.okOf c.costOf c.hOf t := by
+  intro v es _
+  rw [c.hOf_dijkstra hwf]
+  exact SearchOpt.cost_nonneg c.costOf_pos es
+
+/-- **C02 on a concrete configuration, A\***: for every edge-local configuration with a non-negative
+weight factor whose estimate is admissible for `t`, every source, every schedule: the route
+`run_vertex_oriented` returns is a valid walk source ⇝ `t`, its summed cost is `Σ costOf` over its
+edges, and no valid walk source ⇝ `t` costs less. -/
+theorem config_astar_route_least_cost (c : Config α) (h : c.EdgeLocal) (hwf : 0 ≤ c.wfOf)
+    {source t : Nat} (hts : t ≠ source) (hadm : Admissible c.inst c.okOf c.costOf c.hOf t)
+    {sched : List Nat} {r : AlgResult α} (hrun : c.runVertex source (some t) sched = .ok r) :
+    ∃ route, r.routes = [route] ∧ route ≠ [] ∧
+      Walk c.inst c.okOf source (route.map (·.edge)) t ∧
+      (route.map (fun b => b.access + b.traversal)).sum = cost c.costOf (route.map (·.edge)) ∧
+      ∀ es, Walk c.inst c.okOf source es t →
+        (route.map (fun b => b.access + b.traversal)).sum ≤ cost c.costOf es := by
+  obtain ⟨res, hres, _, hroutes, _⟩ := SearchRoute.runVertex_ok hrun
+  obtain ⟨route, d, hr, hne, hw, hsum, _, _, hmin⟩ :=
+    SearchRoute.route_optimal_on (c.inst_wf h.adj) (c.uniformOn h hwf) hts hadm hres
+  refine ⟨route, ?_, hne, hw, hsum, hmin⟩
+  rw [hroutes, hr]; rfl
+
+/-- **C02 on a concrete configuration, Dijkstra** (`weight_factor = 0`): for every edge-local
+configuration, every source, target and schedule, the returned route has the least summed cost of
+all valid walks — no premise on weights, rates, lengths, features or tables. -/
+theorem config_dijkstra_route_least_cost (c : Config α) (h : c.EdgeLocal) (hwf : c.wf = some 0)
+    {source t : Nat} (hts : t ≠ source)
+    {sched : List Nat} {r : AlgResult α} (hrun : c.runVertex source (some t) sched = .ok r) :
+    ∃ route, r.routes = [route] ∧ route ≠ [] ∧
+      Walk c.inst c.okOf source (route.map (·.edge)) t ∧
+      (route.map (fun b => b.access + b.traversal)).sum = cost c.costOf (route.map (·.edge)) ∧
+      ∀ es, Walk c.inst c.okOf source es t →
+        (route.map (fun b => b.access + b.traversal)).sum ≤ cost c.costOf es :=
+  config_astar_route_least_cost c h (by simp [Config.wfOf, hwf]) hts
+    (c.admissible_dijkstra hwf t) hrun
+
+theorem runVertex_noPath {c : Config α} {source : Nat} {target : Option Nat} {sched : List Nat}
+    (h : c.runVertex source target sched = .error .noPath) :
+    runVertexOriented c.inst source target sched = .error .noPath := by
+  unfold Config.runVertex at h
+  split at h
+  · rename_i k hk
+    injection h with h
+    rw [hk, h]
+  · cases h
+
+/-- a result of `Config.runVertex` towards `t` implies a valid walk to `t` -/
+theorem config_result_implies_reachable (c : Config α) (h : c.EdgeLocal) {source t : Nat}
+    {sched : List Nat} {r : AlgResult α} (hrun : c.runVertex source (some t) sched = .ok r) :
+    ∃ es, Walk c.inst c.okOf source es t := by
+  obtain ⟨res, hres, _⟩ := SearchRoute.runVertex_ok hrun
+  by_cases hts : t = source
+  · exact ⟨[], hts.symm⟩
+  · obtain ⟨_, es, _, hw, _⟩ := SearchOpt.ok_imp_reachable_on (c.uniformCostOn h) c.vertexHOn hts
+      (SearchRoute.runVertexOriented_final hres)
+    exact ⟨es, hw⟩
+
+/-- "no path" from `Config.runVertex` implies there is no valid walk — any weight factor, any
+termination model, any schedule -/
+theorem config_nopath_implies_unreachable (c : Config α) (h : c.EdgeLocal) {source t : Nat}
+    {sched : List Nat} (hrun : c.runVertex source (some t) sched = .error .noPath) :
+    ¬ ∃ es, Walk c.inst c.okOf source es t := by
+  have hro := runVertex_noPath hrun
+  by_cases hts : t = source
+  · subst hts
+    simp [runVertexOriented, runAStar, backtrack, backtrackAux] at hro
+  · have hra := SearchTree.runVertexOriented_error (c.inst_wf h.adj) source t sched _ hts hro
+    exact SearchOpt.nopath_imp_unreachable_on (c.uniformCostOn h) c.vertexHOn c.noSpuriousNoPath hra
+
+/-- **C05 on a concrete configuration**: among the outcomes "a result" and "no path",
+`Config.runVertex` answers "no path" exactly when no valid walk source ⇝ `t` exists, and returns a
+result exactly when one does -/
+theorem config_nopath_iff_unreachable (c : Config α) (h : c.EdgeLocal) {source t : Nat}
+    {sched : List Nat}
+    (hres : (∃ r, c.runVertex source (some t) sched = .ok r) ∨
+      c.runVertex source (some t) sched = .error .noPath) :
+    (c.runVertex source (some t) sched = .error .noPath ↔
+        ¬ ∃ es, Walk c.inst c.okOf source es t) ∧
+    ((∃ r, c.runVertex source (some t) sched = .ok r) ↔ ∃ es, Walk c.inst c.okOf source es t) := by
+  refine ⟨⟨config_nopath_implies_unreachable c h, fun hno => ?_⟩,
+    ⟨fun ⟨r, hr⟩ => config_result_implies_reachable c h hr, fun hex => ?_⟩⟩
+  · rcases hres with ⟨r, hr⟩ | hnp
+    · exact absurd (config_result_implies_reachable c h hr) hno
+    · exact hnp
+  · rcases hres with hr | hnp
+    · exact hr
+    · exact absurd hex (config_nopath_implies_unreachable c h hnp)
+
+/-- **C05 / C02 on a concrete configuration, destination-less search**: the returned tree holds
+exactly the vertices reachable by a valid walk (the source has no entry), and the parent chain of
+every tree vertex is a valid walk of least summed cost -/
+theorem config_tree_reachable_least_cost (c : Config α) (h : c.EdgeLocal) {source : Nat}
+    {sched : List Nat} {r : AlgResult α} (hrun : c.runVertex source none sched = .ok r) :
+    ∃ tree, r.trees = [tree] ∧
+      (∀ v, (v = source ∨ (tree v).isSome) ↔ ∃ es, Walk c.inst c.okOf source es v) ∧
+      ∀ v path, SearchTree.PathTo source tree v path →
+        Walk c.inst c.okOf source (path.map (·.edge)) v ∧
+        (path.map (fun b => b.access + b.traversal)).sum = cost c.costOf (path.map (·.edge)) ∧
+        ∀ es, Walk c.inst c.okOf source es v →
+          (path.map (fun b => b.access + b.traversal)).sum ≤ cost c.costOf es := by
+  obtain ⟨res, hres, htrees, _, _⟩ := SearchRoute.runVertex_ok hrun
+  have hra := (SearchRoute.runVertexOriented_none hres).1
+  have hinv : SearchTree.TreeInv c.inst source res.final := by
+    rcases SearchTree.runAStar_treeInv (c.inst_wf h.adj) source none sched _ hra with h0 | h'
+    · cases h0.1
+    · exact h'
+  refine ⟨res.final.sol, htrees, fun v => ?_, fun v path hp => ?_⟩
+  · rw [← SearchOpt.tree_eq_reachable_on (c.uniformCostOn h) hra v]
+    constructor
+    · exact fun hv => SearchTree.labelled_of_entry hinv hv
+    · rintro ⟨x, hx⟩
+      exact hinv.labelled v x hx
+  · obtain ⟨x, _, hw, hsum, _, hmin⟩ :=
+      SearchRoute.tree_paths_optimal_on (c.inst_wf h.adj) (c.uniformCostOn h) hra hp
+    exact ⟨hw, hsum, hmin⟩
+
+/-! ### The state change of an edge, spelled out for the two traversal models -/
+
+theorem Config.edgeDelta_distance (c : Config α) {du : DistanceUnit} (ht : c.trav = .distance du)
+    {e : Nat} {er : EdgeRec α} (he : c.edges[e]? = some er) (i : Nat) :
+    c.edgeDelta e i = slotDelta (distSlot c.feats "distance")
+      (fun fu => du.convert fu (baseDistanceUnit.convert du er.dist)) i := by
+  simp [Config.edgeDelta, he, ht]
+
+theorem Config.edgeDelta_speed (c : Config α) {su : SpeedUnit} {du : DistanceUnit} {tu : TimeUnit}
+    {ms : α} {table : List α} (ht : c.trav = .speed su du tu ms table)
+    {e : Nat} {er : EdgeRec α} (he : c.edges[e]? = some er) {sp t : α} (hsp : table[e]? = some sp)
+    (hct : createTime sp su (baseDistanceUnit.convert du er.dist) du tu = some t) (i : Nat) :
+    c.edgeDelta e i = slotDelta (timeSlot c.feats "time") (fun fu => tu.convert fu t) i
+      + slotDelta (distSlot c.feats "distance")
+          (fun fu => du.convert fu (baseDistanceUnit.convert du er.dist)) i := by
+  simp [Config.edgeDelta, he, ht, hsp, hct]
+
 end
+
+/-! ### Non-vacuity: concrete configurations over ℚ
+
+Five vertices (4 is isolated), eight edges: 0: 0→1 (1000 m), 1: 1→2 (2000 m), 2: 2→3 (500 m),
+3: 1→1 (self loop), 4: 3→1 (closes a cycle), 5: 2→2 (self loop), 6: 0→3 (10 m, a shortcut the
+frontier model forbids), 7: 1→3 (3000 m).
+
+* `exC`: distance model in metres writing a *kilometre* feature; cost = 2 · (3 · km + 1) plus a
+  surcharge of 5 on edge 2 (weight 2, a combined rate with an **offset**, an edge lookup); weight
+  factor 0 (Dijkstra).  By length the best route is `[0, 1, 2]`; by cost it is `[0, 7]`.
+* `exS`: speed-table model (km/h table, seconds, a minutes feature), cost = travel time; edge 7 is
+  slow, the best route is `[0, 1, 2]`.
+* `exA`: raw distance cost, weight factor one, a great-circle table that is consistent with the edge
+  lengths: A* with an admissible non-zero estimate. -/
+
+namespace ConfigUniform.Example
+
+open SearchOpt (Walk cost Admissible)
+open SearchRoute.Example (routeEdgesOf routeCostsOf ok_of_routeEdgesOf)
+
+def exC : Config ℚ where
+  nV := 5
+  edges := [⟨0, 1, 1000⟩, ⟨1, 2, 2000⟩, ⟨2, 3, 500⟩, ⟨1, 1, 100⟩, ⟨3, 1, 700⟩, ⟨2, 2, 50⟩,
+            ⟨0, 3, 10⟩, ⟨1, 3, 3000⟩]
+  outAdj := [[0, 6], [1, 3, 7], [2, 5], [4]]
+  inAdj := [[], [0, 3, 4], [1, 5], [2, 6, 7]]
+  feats := [{ name := "distance", kind := .dist .kilometers, init := 0 }]
+  trav := .distance .meters
+  access := .noAccess
+  cost := { indices := [0], weights := [2], vehicleRates := [.combined [.factor 3, .offset 1]],
+            networkRates := [.edgeLookup [(2, 5)]], agg := .sum }
+  frontier := [.edgeCut [6]]
+  term := .iters 100
+  reverse := false
+  gc := [0, 0, 0, 0, 0]
+  wf := some 0
+
+def exS : Config ℚ := { exC with
+  feats := [{ name := "distance", kind := .dist .meters, init := 0 },
+            { name := "time", kind := .time .minutes, init := 0 }]
+  trav := .speed .kilometersPerHour .meters .seconds 72 [36, 36, 36, 36, 36, 36, 36, 18]
+  cost := { indices := [0, 1], weights := [0, 1], vehicleRates := [.raw, .raw],
+            networkRates := [.zero, .zero], agg := .sum } }
+
+def exA : Config ℚ := { exC with
+  feats := [{ name := "distance", kind := .dist .meters, init := 0 }]
+  cost := { indices := [0], weights := [1], vehicleRates := [.raw], networkRates := [.zero],
+            agg := .sum }
+  gc := [3000, 2400, 500, 0, 0]
+  wf := none }
+
+/-- adjacency consistency only reads the edge list, the adjacency lists and the direction -/
+theorem adj_of (c : Config ℚ) (he : c.edges = exC.edges) (ho : c.outAdj = exC.outAdj)
+    (hr : c.reverse = false) : c.AdjConsistent := by
+  intro v e hmem
+  simp only [Config.inst, hr, he, ho] at hmem ⊢
+  match v with
+  | 0 => simp [exC] at hmem; rcases hmem with rfl | rfl <;> rfl
+  | 1 => simp [exC] at hmem; rcases hmem with rfl | rfl | rfl <;> rfl
+  | 2 => simp [exC] at hmem; rcases hmem with rfl | rfl <;> rfl
+  | 3 => simp [exC] at hmem; subst hmem; rfl
+  | n + 4 => simp [exC] at hmem
+
+theorem exC_edgeLocal : exC.EdgeLocal := ⟨adj_of exC rfl rfl rfl, rfl, rfl⟩
+theorem exS_edgeLocal : exS.EdgeLocal := ⟨adj_of exS rfl rfl rfl, rfl, rfl⟩
+theorem exA_edgeLocal : exA.EdgeLocal := ⟨adj_of exA rfl rfl rfl, rfl, rfl⟩
+
+/-- the same network searched backwards (from vertex 3 over the in-edges) -/
+def exR : Config ℚ := { exC with reverse := true }
+
+theorem exR_edgeLocal : exR.EdgeLocal := by
+  refine ⟨?_, rfl, rfl⟩
+  intro v e hmem
+  simp only [Config.inst, exR] at hmem ⊢
+  match v with
+  | 0 => simp [exC] at hmem
+  | 1 => simp [exC] at hmem; rcases hmem with rfl | rfl | rfl <;> rfl
+  | 2 => simp [exC] at hmem; rcases hmem with rfl | rfl <;> rfl
+  | 3 => simp [exC] at hmem; rcases hmem with rfl | rfl | rfl <;> rfl
+  | n + 4 => simp [exC] at hmem
+
+/-- the runs: by cost `[0, 7]` (Dijkstra on `exC`), by time `[0, 1, 2]` (`exS`), A* `[0, 1, 2]`
+(`exA`), reverse search `[7, 0]` (`exR`, in the order of the search direction) -/
+theorem exC_run : routeEdgesOf (exC.runVertex 0 (some 3) [0, 1, 2, 3]) = some [[0, 7]] := by
+  decide +kernel
+theorem exS_run : routeEdgesOf (exS.runVertex 0 (some 3) [0, 1, 2, 3]) = some [[0, 1, 2]] := by
+  decide +kernel
+theorem exA_run : routeEdgesOf (exA.runVertex 0 (some 3) [0, 1, 2, 3]) = some [[0, 1, 2]] := by
+  decide +kernel
+theorem exR_run : routeEdgesOf (exR.runVertex 3 (some 0) [3, 2, 1, 0]) = some [[7, 0]] := by
+  decide +kernel
+
+def errOf (r : Except ErrKind (AlgResult ℚ)) : Option ErrKind :=
+  match r with
+  | .ok _ => none
+  | .error k => some k
+
+/-- vertex 4 is isolated: the run towards it ends with "no path" -/
+theorem exC_nopath : exC.runVertex 0 (some 4) [0, 1, 2, 3] = .error .noPath := by
+  have h : errOf (exC.runVertex 0 (some 4) [0, 1, 2, 3]) = some .noPath := by decide +kernel
+  cases hr : exC.runVertex 0 (some 4) [0, 1, 2, 3] with
+  | error k =>
+    rw [hr] at h
+    simp only [errOf, Option.some.injEq] at h
+    rw [h]
+  | ok s => rw [hr] at h; simp [errOf] at h
+
+/-- the estimate of `exA` is the great-circle table, consistent with the edge costs, hence admissible -/
+theorem exA_admissible : Admissible exA.inst exA.okOf exA.costOf exA.hOf 3 := by
+  apply SearchOpt.admissible_of_consistent
+  · have key : ∀ v ∈ List.range 4, ∀ e ∈ exA.inst.incident v, exA.okOf e = true →
+        exA.hOf v ≤ exA.costOf e + exA.hOf (exA.inst.keyV e) := by decide +kernel
+    intro v e he hok
+    by_cases hv : v < 4
+    · exact key v (List.mem_range.2 hv) e he hok
+    · obtain ⟨n, rfl⟩ : ∃ n, v = n + 4 := ⟨v - 4, by omega⟩
+      simp [Config.inst, exA, exC] at he
+  · decide +kernel
+
+/-- the estimate is not the zero function: A* really uses it -/
+theorem exA_h0 : exA.hOf 0 = 3000 := by decide +kernel
+
+end ConfigUniform.Example
 
 end Compass
